@@ -60,7 +60,13 @@ class ProjectResultRegistry(ProjectRegistry):
         list[Path]
             Paths to previous results with name ``base_name``.
         """
-        return sorted(self.directory.glob(f"{base_name}_run_*"))
+        run_name_pattern = re.compile(rf"{re.escape(Path(base_name).name)}_run_(\d+)")
+        previous_results = [
+            (int(match.group(1)), path)
+            for path in self.directory.glob(f"{base_name}_run_*")
+            if (match := run_name_pattern.fullmatch(path.name)) is not None
+        ]
+        return [path for _, path in sorted(previous_results)]
 
     def _latest_result_path_fallback(self, name: str, *, latest: bool = False) -> Path:
         """Fallback when a user forgets to specify the run to get a result.
@@ -122,7 +128,7 @@ class ProjectResultRegistry(ProjectRegistry):
         previous_results = self.previous_result_paths(base_name)
         if not previous_results:
             return f"{base_name}_run_0000"
-        latest_result_run_nr = int(previous_results[-1].stem.replace(f"{base_name}_run_", ""))
+        latest_result_run_nr = int(previous_results[-1].name.rpartition("_run_")[2])
         return f"{base_name}_run_{latest_result_run_nr+1:04}"
 
     def save(self, name: str, result: Result):
